@@ -39,7 +39,7 @@ PATCHY = gen.SIMPLE_PIX + gen.ANNULI_PIX
 
 
 def generate(rng, tier, shard, nshards):
-    n = 200 if tier == 'quick' else 5000
+    n = 600 if tier == 'quick' else 8000
     for i in range(n):
         cls = rng.choice(PATCHY + ['PointPixelRegion', 'LinePixelRegion', 'TextPixelRegion'])
         reg = gen.pixel_region_spec(rng, cls=cls, size=gen.logu(rng, 0.5, 200), center=(rng.uniform(-100, 100), rng.uniform(-100, 100)), max_aspect=10.0,
